@@ -301,6 +301,7 @@ theorem createRoutingKey_spec (enc : τ → ν → Enc) (ms : List (Marker α τ
     Routing.createRoutingKey enc ⟨is, ts, ks, tb⟩ vals = .key (some (Token.routingKey cs)) := by
   obtain ⟨ts', hts', hl1, hl2, hloop⟩ := compositeLoop_spec enc ms vals is cs h
   rw [hts] at hts'; simp at hts'; subst hts'
+  rw [Routing.createRoutingKey_eq_core enc ⟨is, ts, ks, tb⟩ vals (Routing.compositeLoop_key_bound enc vals is ts [] _ (hloop []))]
   match is, ts, cs, hne, hl1, hl2, hloop, h with
   | [i], [t], [c], _, _, _, hloop, h =>
     have := hloop []
@@ -314,10 +315,10 @@ theorem createRoutingKey_spec (enc : τ → ν → Enc) (ms : List (Marker α τ
       obtain ⟨m, hm, he⟩ := component_some hc
       simp [typesAt, hm] at hts
       subst hts
-      simp [Routing.createRoutingKey, he, Token.routingKey]
+      simp [Routing.createRoutingKeyCore, he, Token.routingKey]
     · simp at h
   | i :: j :: is', t :: t2 :: ts', c1 :: c2 :: cs', _, _, _, hloop, _ =>
-    simp only [Routing.createRoutingKey]
+    simp only [Routing.createRoutingKeyCore]
     rw [hloop []]; simp [Token.routingKey]
   | [], _, _, hne, _, _, _, _ => exact absurd rfl hne
   | [_], [], _, _, h1, _, _, _ => simp at h1
